@@ -30,6 +30,7 @@ type C07Plan struct {
 	Cuts      []int    `json:"cuts"`
 	EOFLast   bool     `json:"eof_with_last"`
 	Adversary string   `json:"adversary,omitempty"` // "", "child-first", "table-before-blocks"
+	SrcFault  *Fault   `json:"src_fault,omitempty"` // a read of the sender's store fails while it builds the packfiles
 }
 
 func init() {
@@ -68,6 +69,8 @@ func init() {
 			p.EOFLast = r.Chance(0.3)
 			if r.Chance(0.12) {
 				p.Adversary = Pick(r, []string{"child-first", "table-before-blocks"})
+			} else if r.Chance(0.15) {
+				p.SrcFault = &Fault{Op: Pick(r, []string{"get", "get", "exist", "read", "any"}), Prefix: Pick(r, []string{"tbl/", "tbl/", "blk/", "com/", ""}), Nth: r.Range(1, 12), Sticky: r.Chance(0.2)}
 			}
 			return p
 		},
@@ -235,8 +238,26 @@ func execC07(t *testing.T, raw json.RawMessage, res *Result) {
 		return
 	}
 
+	srcFaulted := func() bool {
+		if p.SrcFault != nil && p.SrcFault.Fired > 0 {
+			// the sender could not read its own store: giving up with an error is a right answer
+			res.fault("sender_store_read_error", 1)
+			res.probe("sender_gave_up_on_read_error", 1)
+			res.Nontrivial = true
+			return true
+		}
+		return false
+	}
+	if p.SrcFault != nil {
+		p.SrcFault.seen, p.SrcFault.Fired = 0, 0
+		src.Faults = []*Fault{p.SrcFault}
+		defer func() { src.Faults = nil }()
+	}
 	sender, err := apiutils.NewObjectSender(src, toSend, tablesToSend, commons, p.MaxPack)
 	if err != nil {
+		if srcFaulted() {
+			return
+		}
 		res.Violate("sender-error", "NewObjectSender: %v", err)
 		return
 	}
@@ -248,6 +269,9 @@ func execC07(t *testing.T, raw json.RawMessage, res *Result) {
 		var buf bytes.Buffer
 		done, _, err := sender.WriteObjects(&buf, nil)
 		if err != nil {
+			if srcFaulted() {
+				return
+			}
 			res.Violate("sender-error", "WriteObjects: %v", err)
 			return
 		}
@@ -260,6 +284,13 @@ func execC07(t *testing.T, raw json.RawMessage, res *Result) {
 		}
 		recvDone, err = recv.Receive(pr, nil)
 		if err != nil {
+			if p.SrcFault != nil && p.SrcFault.Fired > 0 {
+				// a sender that lost an object to a read error may produce a stream the receiver refuses: loud, fine
+				res.fault("sender_store_read_error", 1)
+				res.probe("receiver_refused_after_sender_read_error", 1)
+				res.Nontrivial = true
+				return
+			}
 			res.Violate("receive-error", "Receive packfile %d: %v", packs, err)
 			return
 		}
@@ -270,6 +301,11 @@ func execC07(t *testing.T, raw json.RawMessage, res *Result) {
 			res.Violate("sender-stuck", "sender not done after %d packfiles", packs)
 			return
 		}
+	}
+	src.Faults = nil
+	if p.SrcFault != nil && p.SrcFault.Fired > 0 {
+		res.fault("sender_store_read_error", 1)
+		res.probe("transfer_completed_despite_sender_read_error", 1)
 	}
 	if me := dst.TakeMonErrs(); len(me) > 0 {
 		res.Violate("c06-monitor", "%s", me[0])
